@@ -255,6 +255,9 @@ def stepFloatTable (tbl : List (Nat × FInst F)) (factor : Rat) (typeTag : Strin
   | ["gutsrt", id, nid] => do
     let inst ← get (← id.toNat?)
     done (put (← nid.toNat?) { inst with last := none }) (report (d.flag "gutsrt") op { model := "ok", impl := implS })
+  | ["clonefrom", aid, bid] => do
+    let inst ← get (← bid.toNat?)
+    done (put (← aid.toNat?) { inst with last := none }) (report (d.flag "clonefrom") op { model := "ok", impl := implS })
   | ["fresh", id, nid] => do
     let inst ← get (← id.toNat?)
     done (put (← nid.toNat?) { st := inst.st.config.init, partner := inst.partner })
@@ -341,7 +344,14 @@ def stepI64Op (d : DState) (op : String) (toks impl : List String) : Option (DSt
     some (report ((put d id { inst with st := inst.st.reset, hist := [] }).flag "reset") op { model := "ok", impl := implS, kind := "mean-i64" })
   | [cp, id, nid] =>
     -- a copy (`Clone`, or state extraction and re-injection) is the same value in the model
-    if cp != "clone" && cp != "gutsrt" then none else do
+    if cp == "fresh" then do
+      let inst ← get (← id.toNat?)
+      some (report ((put d (← nid.toNat?) { st := inst.st.config.init, note := inst.note }).flag cp) op
+        { model := "ok", impl := implS, kind := "mean-i64" })
+    else if cp == "clonefrom" then do
+      let inst ← get (← nid.toNat?)
+      some (report ((put d (← id.toNat?) inst).flag cp) op { model := "ok", impl := implS, kind := "mean-i64" })
+    else if cp != "clone" && cp != "gutsrt" then none else do
     let inst ← get (← id.toNat?)
     some (report ((put d (← nid.toNat?) inst).flag cp) op { model := "ok", impl := implS, kind := "mean-i64" })
   | _ => none
